@@ -157,3 +157,10 @@ def c04_machine(ctx, v, pid="C04", obligation="c04_machine"):
             v.fail("%s — %s" % (cls, what), dict(cls=cls, steps=_steps(o) if o.kind == "return" else [e[:2] for e in o.events if e[0] in ("reorg", "validate")][:40]))
         v.covers_total += 1
         v.covers_sat += 1 if ok_cases else 0
+
+
+def c04_index_cleanup(ctx, v):
+    """a rejected block leaves no trace in the chain index: BlockRing::delete_block (called by
+    add_block_failure) removes exactly the rejected (id, hash) — see c03_m_blockring_delete."""
+    from . import obl_c03
+    obl_c03.c03_m_blockring_delete(ctx, v)
